@@ -104,6 +104,11 @@ package log
 //@   modifies Rule.Entries, E:*github.com/tmpim/casket/caskethttp/log.Entry, E:*github.com/tmpim/casket/caskethttp/log.Rule
 //@   ensures [rules_stay_well_formed] wfRules(result)
 //@   ensures [nothing_lost] len(result) >= len(rules)
+//@   // C20: a directive's entry logs the requests of ITS scope: it sits last under a rule whose scope is exactly the scope
+//@   // written (byte for byte - scopes that differ in letter case are different scopes when path matching is case-sensitive),
+//@   // and no rule of another scope gains or loses an entry
+//@   ensures [entry_under_exactly_its_own_scope] exists(k, 0, len(result), result[k].PathScope == pathScope && len(result[k].Entries) >= 1 && result[k].Entries[len(result[k].Entries)-1] == entry)
+//@   ensures [other_scopes_untouched] forall(k, 0, len(old(rules)), result[k] == old(rules)[k] && (result[k].PathScope != pathScope ==> len(result[k].Entries) == old(len(rules[k].Entries))))
 //@   loop 1 invariant 0 <= #i && #i <= len(rules) && wfRules(rules)
 //@ func logParse
 //@   modifies Dispenser.cursor, Dispenser.nesting, E:*github.com/tmpim/casket/caskethttp/log.Entry, E:*github.com/tmpim/casket/caskethttp/log.Rule, Rule, Entry
